@@ -188,4 +188,22 @@ theorem inbound_limit_only_where_announced (e : Engine) :
   · intro h; rw [h]; rfl
   · intro h; rw [h]; rfl
 
+/-- **Session Present = 1 in answer to a clean start is a protocol error** ([MQTT-3.2.2-1], [MQTT-3.2.2-2], [MQTT-3.2.2-4]): a successful CONNACK that
+    reports a session although the CONNECT of this connection asked for a clean start / clean session fails the connection;
+    nothing is taken for resumed. -/
+theorem session_present_after_clean_start_is_refused (e : Engine) (c : Connack) (hs : e.state = .pendingConnack)
+    (hrc : c.reasonCode = 0) (hv : vConnackInbound c = .ok ()) (hsp : c.sessionPresent = true) (hcl : e.connectClean = true) :
+    e.handleConnack c = (e, .err "ProtocolError") := by
+  unfold Engine.handleConnack
+  simp [hs, hrc, hv, hsp, hcl]
+
+/-- the flag is the Clean Start of the CONNECT queued for this connection -/
+theorem opened_records_clean_start (e : Engine) (d : Nat) (hs : e.state = .disconnected) :
+    (e.handleOpened d).1.connectClean = connectIsClean e.createConnect := by
+  unfold Engine.handleOpened
+  simp only [hs, bne_self_eq_false, Bool.false_eq_true, ↓reduceIte, Engine.createOp]
+  unfold Engine.enqueue
+  simp only [Engine.op?, lookup_mapInsert_self, Option.isNone_some, Bool.false_eq_true, ↓reduceIte]
+  rfl
+
 end GV.Props.C11
